@@ -447,7 +447,7 @@ impl Exec {
     /// finds FAT (inside the float-regime box, or inside |x| <= 1e6 otherwise).
     fn refuted_infeasible_answer(&self) -> Option<(usize, usize)> {
         for r in &self.last_records {
-            if !r.zero_objective || r.real != lpseam::StatusKind::Infeasible {
+            if !r.zero_objective || r.real != lpseam::StatusKind::Infeasible || r.returned != lpseam::StatusKind::Infeasible || r.fault_family.is_some() {
                 continue;
             }
             let dim = r.mat.first().map(|x| x.len()).unwrap_or(0);
@@ -468,6 +468,19 @@ impl Exec {
             }
         }
         None
+    }
+
+    /// Root-cause attribution (DESIGN.md 6.12): if the real backend, during the current operation,
+    /// answered Infeasible for a row-normalized system that the exact LP proves FAT, the violation
+    /// class says so - that is what the open backend finding is keyed on.
+    fn attribute(&self, class: &str, detail: String) -> (String, String) {
+        match self.refuted_infeasible_answer() {
+            Some(r) => (
+                format!("{class}_after_refuted_infeasible_answer"),
+                format!("{detail}; LP call #{} ({} unit-norm rows) was answered Infeasible by the real backend although the exact LP finds an interior point", r.0, r.1),
+            ),
+            None => (class.to_string(), detail),
+        }
     }
 
     fn absorb_records(&mut self) -> Vec<LpRecord> {
@@ -546,6 +559,7 @@ impl Exec {
             match oracle::check_caches(&self.pool[slot], self.fat_box()) {
                 Ok(cs) => self.absorb_cache_stats(&cs),
                 Err((class, detail)) => {
+                    let (class, detail) = if class == "infeasible_mark_on_fat_region" { self.attribute(&class, detail) } else { (class, detail) };
                     out.violations.push(self.viol(Clause::Cache, &class, site, detail));
                     if self.stops(Clause::Cache) {
                         out.stop = true;
@@ -568,16 +582,8 @@ impl Exec {
                 match self.confirm(&d, &self.pool[slot], &result_model, expected, &refeval) {
                     Ok(detail) => {
                         if prunes {
-                            let mut class = if d.kind == "definedness" { "definedness_changed".to_string() } else { "function_changed".to_string() };
-                            let mut detail = detail;
-                            // Root-cause attribution: did the real backend, during this operation, answer
-                            // Infeasible for a row-normalized system that the exact LP proves feasible and FAT?
-                            // Then the function change is (at least also) the backend's doing - the class says so,
-                            // which is what the open finding of DESIGN.md 6.11 is keyed on.
-                            if let Some(r) = self.refuted_infeasible_answer() {
-                                class = format!("{class}_after_refuted_infeasible_answer");
-                                detail = format!("{detail}; LP call #{} ({} unit-norm rows) was answered Infeasible by the real backend although the exact LP finds an interior point", r.0, r.1);
-                            }
+                            let class = if d.kind == "definedness" { "definedness_changed" } else { "function_changed" };
+                            let (class, detail) = self.attribute(class, detail);
                             let class = class.as_str();
                             out.violations.push(self.viol(Clause::Function, class, site, detail));
                             if self.stops(Clause::Function) {
@@ -743,6 +749,9 @@ impl Exec {
                 let r = guarded(|| self.pool[*slot].reduce());
                 self.absorb_records();
                 let nb = before.len();
+                if r.is_ok() && self.pool[*slot].len() < nb {
+                    bump(&mut self.stats.probes, "reduce_merged_nodes", 1);
+                }
                 if let Some(m) = self.finish(*slot, &site, r, &expected, false, RefEval::Before(before), nb, &mut out) {
                     self.models[*slot] = m;
                 }
@@ -1014,12 +1023,13 @@ impl Exec {
                         let terms = self.pool[*slot].num_terminals();
                         self.stats.c06_region_bounds_checked += 1;
                         if terms < fat || terms > nonempty {
-                            out.violations.push(self.viol(
-                                Clause::Effective,
-                                "terminal_count_outside_region_bounds",
-                                &site,
-                                format!("distilled tree has {terms} terminals; the network has {fat} full-dimensional and {nonempty} non-empty closed activation regions"),
-                            ));
+                            let detail = format!("distilled tree has {terms} terminals; the network has {fat} full-dimensional and {nonempty} non-empty closed activation regions");
+                            let (class, detail) = if terms < fat {
+                                self.attribute("terminal_count_outside_region_bounds", detail)
+                            } else {
+                                ("terminal_count_outside_region_bounds".to_string(), detail)
+                            };
+                            out.violations.push(self.viol(Clause::Effective, &class, &site, detail));
                             if self.stops(Clause::Effective) {
                                 out.stop = true;
                             }
